@@ -126,7 +126,7 @@ fn chain_rule_programs() -> Vec<Prog> {
         for k in (0..3).rev() {
             ssa.push(GOp::new(1, "Input", k, k, -1, 0));
         }
-        Prog { ssa, nvars: 3 }
+        vharness::tapes::compact_slots(&Prog { ssa, nvars: 3 })
     };
     let mut out = vec![];
     for u in UNARY {
@@ -182,7 +182,7 @@ fn singular_inactive_programs() -> Vec<(Prog, Prog, [f32; 3])> {
         for k in (0..3).rev() {
             ssa.push(GOp::new(1, "Input", k, k, -1, 0));
         }
-        Prog { ssa, nvars: 3 }
+        vharness::tapes::compact_slots(&Prog { ssa, nvars: 3 })
     };
     // singular branches, result in slot 34; (ops, the branch is below the affine one (max) or above it (min), point)
     let cyl = vec![GOp::new(3, "Square", 30, 1, -1, 0), GOp::new(3, "Square", 31, 2, -1, 0), GOp::new(6, "Add", 32, 30, 31, 0),
@@ -191,7 +191,19 @@ fn singular_inactive_programs() -> Vec<(Prog, Prog, [f32; 3])> {
     let lnsq = vec![GOp::new(3, "Square", 30, 1, -1, 0), GOp::new(3, "Ln", 34, 30, -1, 0)];
     let recip = vec![GOp::new(3, "Square", 30, 1, -1, 0), GOp::new(3, "Recip", 34, 30, -1, 0)];
     let mut out = vec![];
-    for (branch, name, pts) in [(cyl, "Max", [[0.5f32, 0.0, 0.0], [-1.0, 0.0, 0.0]]), (absx, "Max", [[0.0, 0.7, -0.4], [0.0, -1.0, 1.0]]),
+    // and / or select one operand whole: `and(s, p)` with s != 0 is p, `or(p, s)` with p != 0 is p; the operand that is
+    // not selected (s: a cylinder distance + 2 on its axis, value 1, partials 0 x inf) must not leak into the partials
+    for pt in [[0.5f32, 0.0, 0.0], [-1.0, 0.0, 0.0]] {
+        for which in 0..2 {
+            let mut ops = affine(10, 3, 2.0);
+            let alone = finish(ops.clone(), 10);
+            ops.extend(cyl.clone());
+            ops.push(GOp::new(4, "Add", 35, 34, -1, bits(2.0)));
+            ops.push(if which == 0 { GOp::new(6, "And", 40, 35, 10, 0) } else { GOp::new(6, "Or", 40, 10, 35, 0) });
+            out.push((finish(ops, 40), alone, pt));
+        }
+    }
+    for (branch, name, pts) in [(cyl.clone(), "Max", [[0.5f32, 0.0, 0.0], [-1.0, 0.0, 0.0]]), (absx, "Max", [[0.0, 0.7, -0.4], [0.0, -1.0, 1.0]]),
                                 (lnsq, "Max", [[0.5, 0.0, 0.3], [1.0, 0.0, -2.0]]), (recip, "Min", [[0.5, 0.0, 0.3], [-1.5, 0.0, 1.0]])] {
         for pt in pts {
             for swap in [false, true] {
@@ -282,7 +294,8 @@ fn zprog(cx: &mut Cx, p: &Prog, rng: &mut Rng) {
 /// C + D: smooth float programs against the f64 dual reference
 fn whole(cx: &mut Cx, p: &Prog, rng: &mut Rng, with_mat: bool) {
     let pt: Vec<f32> = (0..p.nvars).map(|_| rng.range(-2.0, 2.0)).collect();
-    let unit = with_mat || rng.below(2) == 0;
+    // arbitrary derivative seeds also through the transform (the caller's seeds are part of the chain rule there too)
+    let unit = rng.below(2) == 0;
     let sd: Vec<[f32; 3]> = (0..p.nvars).map(|k| seeds(rng, unit, k)).collect();
     let mut m = Matrix4::<f32>::identity();
     if with_mat {
